@@ -23,11 +23,77 @@ REG = std_pairings(Reg())
 SCHEMAS = REG.schemas
 
 
+# ---- multitable cube set whose second cube is a single-column filter over a text variable: the
+# ---- server omits the rows the filter did not count and the library re-inflates the response
+FS = "cubeset_filter_column"
+FS_PROFILES = [(v, f) for v in range(3) for f in (0, 1)]      # (text value, inside the filter?)
+FS_MINBASE = (1, 2, 3)
+
+
+def _fs_space(tier):
+    from mc.engine import Space, multisets
+    n = 3 if tier == "quick" else 5
+
+    def level(k):
+        def gen():
+            for ms in multisets(len(FS_PROFILES), k):
+                for mb in range(len(FS_MINBASE)):
+                    yield (ms, mb)
+        return gen
+    return Space(FS, [(k, level(k)) for k in range(1, n + 1)], len(FS_PROFILES),
+                 {"profiles": len(FS_PROFILES), "min_base": list(FS_MINBASE), "max_respondents": n})
+
+
+def _fs_responses(state):
+    from mc import schemas as S
+    from mc.model import Schema
+    T3 = S.enum("txt", "text", 3, has_missing=False)
+    sch = Schema("sum", [T3], [("enum", 0)])
+    people = [FS_PROFILES[i] for i in state[0]]
+    r0 = tabulate(sch, [((v,), 1, None) for v, _f in people])
+    inside = [v for v, f in people if f]
+    r1 = tabulate(sch, [((v,), 1, None) for v in inside])
+    res = r1["result"]
+    els = res["dimensions"][0]["type"]["elements"]
+    keep = [k for k, e in enumerate(els) if res["counts"][k] > 0]
+    res["dimensions"][0]["type"]["elements"] = [els[k] for k in keep]
+    res["counts"] = [res["counts"][k] for k in keep]
+    res["measures"]["count"]["data"] = [res["measures"]["count"]["data"][k] for k in keep]
+    res["is_single_col_cube"] = True
+    return people, inside, [r0, r1]
+
+
+def _check_fs(state):
+    from cr.cube.cube import CubeSet
+    people, inside, resps = _fs_responses(state)
+    mb = FS_MINBASE[state[1]]
+    V, asserted = [], 0
+    cs = CubeSet(resps, [{}, {}], 1000, mb)
+    parts = cs.partition_sets[0]
+    for ci, (part, pop) in enumerate(zip(parts, ([v for v, _ in people], inside))):
+        counts = [sum(1 for v in pop if v == k) for k in range(3)]
+        base = len(pop)
+        for name, obs, exp in (("counts", part.unweighted_counts, counts),
+                               ("unweighted_bases", part.unweighted_bases, [base] * 3),
+                               ("min_base_size_mask", part.min_base_size_mask, [base < mb] * 3)):
+            asserted += 1
+            d = first_diff(obs, exp)
+            if d is not None:
+                V.append(viol("cubeset:cube%d:%s" % (ci, name), "cube %d %s at %s: library %r, respondents give %r "
+                              "(min_base %d)" % (ci, name, d[0], d[1], d[2], mb), output=name))
+    ntv = 0 < len(inside) and len(set(inside)) < 3
+    return Res(V, ntv, digest(FS, state[1], arr_bytes(parts[1].unweighted_counts)), asserted)
+
+
 def spaces(tier):
-    return REG.spaces(tier)
+    return REG.spaces(tier) + [_fs_space(tier)]
 
 
 def detail(space, state):
+    if space == FS:
+        people, inside, resps = _fs_responses(state)
+        return {"respondents": [{"text_value": v, "in_filter": bool(f)} for v, f in people],
+                "min_base": FS_MINBASE[state[1]], "responses": resps}
     return REG.detail(space, state)
 
 
@@ -37,6 +103,8 @@ BASES = [("row_weighted_bases", "row_base", True), ("row_unweighted_bases", "row
 
 
 def check(space, state):
+    if space == FS:
+        return _check_fs(state)
     sch, data, cfg, cube, oracles = REG.build(space, state)
     V = []
     asserted = 0
